@@ -711,63 +711,3 @@ Proof.
 Qed.
 
 
-(* ---- one call, any history ------------------------------------------------------------------------------ *)
-Lemma mem_enum_allowed k l t : (forall t, In t l -> type_allowed k t = true) -> mem_str t l = true -> type_allowed k t = true.
-Proof. intros H M. apply H. apply mem_str_In. exact M. Qed.
-
-Lemma service_type_ok t : mem_str t enum_service_types = true -> type_allowed KNS t = true.
-Proof. intro H. apply service_types_in_vocab. apply mem_str_In. exact H. Qed.
-
-Lemma reads_for_each_need l : reads (for_each l (need KCP)).
-Proof. apply reads_for_each. intro. apply reads_need. Qed.
-
-Lemma run_op_preserves sub fl hint o s s' r :
-  WF (sg s) -> op_pre (sg s) o = true -> run_op sub fl hint o s = (s', r) -> WF (sg s').
-Proof.
-  intros W P R. destruct o; simpl in P; try discriminate P; unfold run_op in R.
-  - (* add_node *)
-    apply bind_inv in R as [[s1 [id [R1 R2]]]|[e0 [R1 _]]]; [apply ret_inv in R2 as [-> _]|];
-      (eapply api_add_node; [exact W | eapply mem_enum_allowed; [apply node_types_in_vocab | exact P] | exact R1]).
-  - (* add_network_service without interfaces *)
-    destruct ifs; [|discriminate P]. simpl in R.
-    apply bind_inv in R as [[s1 [[] [R1 R2]]]|[e0 [R1 _]]]; [|apply ret_inv in R1 as [_ R1]; discriminate].
-    apply ret_inv in R1 as [-> _]. eapply (api_add_ns_nil fl); [exact W | apply service_type_ok; exact P | exact R2].
-  - (* node.add_network_service *)
-    peel R W.
-    apply bind_inv in R as [[s1 [id [R1 R2]]]|[e0 [R1 _]]]; [apply ret_inv in R2 as [-> _]|];
-      (eapply api_node_add_ns; [exact W | apply service_type_ok; exact P | exact R1]).
-  - (* add_link *)
-    apply andb_true_iff in P as [P1 P2].
-    apply bind_reads in R; [| apply (reads_for_each_need ifs) ].
-    destruct R as [[s1 [u [Hm [Hg R]]]] | [e [Hr Hg]]]; [| rewrite Hg; exact W].
-    rewrite <- Hg in W, P2.
-    eapply api_add_link; [exact W | eapply mem_enum_allowed; [apply link_types_in_vocab | exact P1] | exact P2 | exact R].
-  - (* remove_link *)
-    eapply api_remove_link; eauto.
-  - (* add_child_interface *)
-    peel R W. eapply api_add_sub; eauto.
-  - (* rename *)
-    peel R W. eapply api_rename; eauto.
-  - (* set_property *)
-    peel R W. destruct p; try discriminate P; (eapply api_set_property; [exact W | | | exact R]); intro X; try discriminate X; exact P.
-  - (* unset_property *)
-    peel R W. eapply api_unset_property; eauto.
-Qed.
-
-Theorem step_preserves_partial sub fl g o drawn hint g' out :
-  WF g -> op_pre g o = true -> step sub fl g o drawn hint = (g', out) -> WF g'.
-Proof.
-  intros W P H. unfold step in H.
-  destruct (run_op sub fl hint o (mkSt g drawn)) as [s' [u|e]] eqn:R; inversion H; subst;
-    eapply (run_op_preserves sub fl hint o (mkSt g drawn)); eauto.
-Qed.
-
-Theorem histories_partial sub fl h : forall g, WF g -> pre_along sub fl g h = true -> WF (run_hist sub fl g h).
-Proof.
-  induction h as [|[[o dr] hi] h IH]; intros g W P; simpl in *; [exact W|].
-  apply andb_true_iff in P as [P1 P2]. apply IH; [|exact P2].
-  destruct (step sub fl g o dr hi) as [g' out] eqn:E. simpl. eapply step_preserves_partial; eauto.
-Qed.
-
-Lemma WF_empty : WF empty_graph.
-Proof. apply wf_b_reflect. reflexivity. Qed.
